@@ -87,5 +87,277 @@ theorem constructors_readable (n : Nat) (i j : Nat) (hi : i < n) (hj : j < n) :
     have := flat_lt hi hj
     simp [entry, square, square_buffer_allocated, Array.getD, this]
 
+
+/-! ### reads and writes -/
+
+/-- the band index map is injective on in-band pairs of one column count -/
+theorem band_index_inj {n mu i j i' j' : Nat} (hj : j < n) (hj' : j' < n) (hb : j ≤ i + mu) (hb' : j' ≤ i' + mu)
+    (h : (i + mu - j) * n + j = (i' + mu - j') * n + j') : i = i' ∧ j = j' := by
+  have h1 := flat_index (r := i + mu - j) hj
+  have h2 := flat_index (r := i' + mu - j') hj'
+  rw [h] at h1
+  have hjj : j = j' := by rw [← h1.2, h2.2]
+  have hr : i + mu - j = i' + mu - j' := by rw [← h1.1, h2.1]
+  subst hjj
+  exact ⟨by omega, rfl⟩
+
+theorem full_index_inj {n i j i' j' : Nat} (hj : j < n) (hj' : j' < n) (h : i * n + j = i' * n + j') : i = i' ∧ j = j' := by
+  have h1 := flat_index (r := i) hj
+  have h2 := flat_index (r := i') hj'
+  rw [h] at h1
+  exact ⟨by rw [← h1.1, h2.1], by rw [← h1.2, h2.2]⟩
+
+/-- writes into an Identity matrix and writes outside the band panic (the matrix is left as it was: `set` returns
+    no new value), as do out-of-range writes -/
+theorem set_panics (A : Mat K) (i j : Nat) (v : K) :
+    (A.storage = .identity → A.set i j v = none)
+    ∧ (∀ ml mu, A.storage = .banded ml mu → ¬ inBand ml mu i j → A.set i j v = none)
+    ∧ (¬ (i < A.n ∧ j < A.m) → A.set i j v = none) := by
+  refine ⟨?_, ?_, ?_⟩
+  · intro h; unfold set; rw [h]; split <;> rfl
+  · intro ml mu h hb; unfold set; rw [h]; split
+    · dsimp only; rw [if_neg hb]
+    · rfl
+  · intro h; unfold set; rw [if_neg h]
+
+/-- an in-band (or Full) write updates exactly the addressed entry -/
+theorem set_spec {A : Mat K} (hw : WF A) {i j : Nat} (hi : i < A.n) (hj : j < A.n) (v : K)
+    (hok : match A.storage with | .identity => False | .full => True | .banded ml mu => inBand ml mu i j) :
+    ∃ A', A.set i j v = some A' ∧ WF A' ∧ A'.n = A.n ∧ A'.storage = A.storage ∧
+      ∀ i' j', i' < A.n → j' < A.n → entry A' i' j' = if i' = i ∧ j' = j then v else entry A i' j' := by
+  obtain ⟨hm, hs⟩ := hw
+  unfold set
+  rw [hm, if_pos ⟨hi, hj⟩]
+  cases hst : A.storage with
+  | identity => rw [hst] at hok; exact hok.elim
+  | full =>
+    rw [hst] at hs; dsimp only at hs ⊢
+    have hlt : i * A.n + j < A.data.size := by rw [hs]; exact flat_lt hi hj
+    rw [if_pos hlt]
+    refine ⟨_, rfl, ⟨rfl, by simp [hs]⟩, rfl, rfl, ?_⟩
+    intro i' j' hi' hj'
+    simp only [entry, hst]
+    by_cases h : i' = i ∧ j' = j
+    · obtain ⟨rfl, rfl⟩ := h
+      simp [Array.getD, hlt]
+    · have hne : i' * A.n + j' ≠ i * A.n + j := fun he => h (full_index_inj hj' hj he)
+      rw [if_neg h]
+      simp only [Array.getD_eq_getD_getElem?, Array.getElem?_setIfInBounds_ne (Ne.symm hne)]
+  | banded ml mu =>
+    rw [hst] at hs hok; dsimp only at hs hok ⊢
+    have hlt : (i + mu - j) * A.n + j < A.data.size := by rw [hs]; exact flat_lt (band_row_lt hok) hj
+    rw [if_pos hok, if_pos hlt]
+    refine ⟨_, rfl, ⟨rfl, by simp [hs]⟩, rfl, rfl, ?_⟩
+    intro i' j' hi' hj'
+    simp only [entry, hst]
+    by_cases hb' : inBand ml mu i' j'
+    · rw [if_pos hb', if_pos hb']
+      by_cases h : i' = i ∧ j' = j
+      · obtain ⟨rfl, rfl⟩ := h
+        simp [Array.getD, hlt]
+      · have hne : (i' + mu - j') * A.n + j' ≠ (i + mu - j) * A.n + j :=
+          fun he => h (band_index_inj hj' hj hb'.1 hok.1 he)
+        rw [if_neg h]
+        simp only [Array.getD_eq_getD_getElem?, Array.getElem?_setIfInBounds_ne (Ne.symm hne)]
+    · rw [if_neg hb', if_neg hb']
+      have : ¬ (i' = i ∧ j' = j) := fun h => hb' (h.1 ▸ h.2 ▸ hok)
+      rw [if_neg this]
+
+
+/-! ### Matrix ± Matrix for every storage pair -/
+
+/-- result of the mixed (densifying) arm -/
+theorem mixed_dense (isAdd : Bool) {A B : Mat K} (ha : WF A) (hb : WF B) (hn : A.n = B.n) :
+    ∃ aa bb, toFull A.n A.data A.storage = some aa ∧ toFull A.n B.data B.storage = some bb ∧
+      WF (⟨A.n, A.n, Array.zipWith (fun x y => if isAdd then x + y else x - y) aa bb, .full⟩ : Mat K) ∧
+      ∀ i j, i < A.n → j < A.n →
+        entry (⟨A.n, A.n, Array.zipWith (fun x y => if isAdd then x + y else x - y) aa bb, .full⟩ : Mat K) i j
+          = if isAdd then entry A i j + entry B i j else entry A i j - entry B i j := by
+  obtain ⟨da, hda, hsa, hea⟩ := toFull_wf ha
+  obtain ⟨db, hdb, hsb, heb⟩ := toFull_wf hb
+  rw [← hn] at hdb hsb heb
+  refine ⟨da, db, hda, hdb, ⟨rfl, by simp [hsa, hsb]⟩, ?_⟩
+  intro i j hi hj
+  have hlt := flat_lt hi hj
+  have he : entry (⟨A.n, A.n, Array.zipWith (fun x y => if isAdd then x + y else x - y) da db, .full⟩ : Mat K) i j
+      = (Array.zipWith (fun x y => if isAdd then x + y else x - y) da db).getD (i * A.n + j) 0 := rfl
+  rw [he, getD_zipWith (by rw [hsa]; exact hlt) (by rw [hsb]; exact hlt), hea i j hi hj, heb i j hi hj]
+
+theorem addSub_dense (isAdd : Bool) {A B : Mat K} (ha : WF A) (hb : WF B) (hn : A.n = B.n) :
+    ∃ C, addSub isAdd A B = some C ∧ WF C ∧ C.n = A.n ∧
+      ∀ i j, i < A.n → j < A.n → entry C i j = if isAdd then entry A i j + entry B i j else entry A i j - entry B i j := by
+  obtain ⟨aa, bb, haa, hbb, hmw, hme⟩ := mixed_dense isAdd ha hb hn
+  unfold addSub
+  rw [if_neg (by simpa using hn)]
+  cases hA : A.storage with
+  | identity =>
+    cases hB : B.storage with
+    | identity =>
+      dsimp only
+      refine ⟨_, rfl, wf_flat_full _ _, rfl, ?_⟩
+      intro i j hi hj
+      rw [entry_flat_full _ hi hj]
+      simp only [entry, hA, hB]
+      by_cases hij : i = j <;> cases isAdd <;> simp [hij]
+    | full => rw [hA] at haa; rw [hB] at hbb; simp only [haa, hbb]; exact ⟨_, rfl, hmw, rfl, hme⟩
+    | banded ml2 mu2 => rw [hA] at haa; rw [hB] at hbb; simp only [haa, hbb]; exact ⟨_, rfl, hmw, rfl, hme⟩
+  | full =>
+    cases hB : B.storage with
+    | identity => rw [hA] at haa; rw [hB] at hbb; simp only [haa, hbb]; exact ⟨_, rfl, hmw, rfl, hme⟩
+    | full =>
+      dsimp only
+      obtain ⟨_, hsa⟩ := ha; obtain ⟨_, hsb⟩ := hb
+      rw [hA] at hsa; rw [hB] at hsb; dsimp only at hsa hsb
+      rw [← hn] at hsb
+      cases isAdd with
+      | true =>
+        refine ⟨_, rfl, ⟨rfl, by simp [hsa, hsb]⟩, rfl, ?_⟩
+        intro i j hi hj
+        have hlt := flat_lt hi hj
+        simp only [entry, hA, hB, if_true]
+        rw [getD_zipWith (by rw [hsa]; exact hlt) (by rw [hsb]; exact hlt), ← hn]
+      | false =>
+        refine ⟨_, rfl, ⟨rfl, by simp [hsa]⟩, rfl, ?_⟩
+        intro i j hi hj
+        have hlt := flat_lt hi hj
+        have h1 : i * A.n + j < A.data.size := by rw [hsa]; exact hlt
+        have h2 : i * A.n + j < B.data.size := by rw [hsb]; exact hlt
+        simp [entry, hA, hB, Array.getD, h1, h2, ← hn]
+    | banded ml2 mu2 => rw [hA] at haa; rw [hB] at hbb; simp only [haa, hbb]; exact ⟨_, rfl, hmw, rfl, hme⟩
+  | banded ml mu =>
+    cases hB : B.storage with
+    | identity => rw [hA] at haa; rw [hB] at hbb; simp only [haa, hbb]; exact ⟨_, rfl, hmw, rfl, hme⟩
+    | full => rw [hA] at haa; rw [hB] at hbb; simp only [haa, hbb]; exact ⟨_, rfl, hmw, rfl, hme⟩
+    | banded ml2 mu2 =>
+      dsimp only
+      obtain ⟨_, hsa⟩ := ha; obtain ⟨_, hsb⟩ := hb
+      rw [hA] at hsa; rw [hB] at hsb; dsimp only at hsa hsb
+      rw [← hn] at hsb
+      have hcell : ∀ ro c, ro < max ml ml2 + max mu mu2 + 1 → c < A.n →
+          (bandedCell isAdd A.data B.data A.n ml mu ml2 mu2 ro c).isSome := by
+        intro ro c _ hc
+        rw [bandedCell_eq isAdd hsa hsb hc]; rfl
+      rw [collectRows_some _ hcell]
+      dsimp only
+      refine ⟨_, rfl, wf_flat_banded _ _ _ _, rfl, ?_⟩
+      intro i j hi hj
+      rw [entry_flat_banded _ hj]
+      simp only [entry, hA, hB]
+      by_cases hbo : inBand (max ml ml2) (max mu mu2) i j
+      · rw [if_pos hbo, bandedCell_eq isAdd hsa hsb hj]
+        have hcond : max mu mu2 ≤ j + (i + max mu mu2 - j) ∧ j + (i + max mu mu2 - j) < A.n + max mu mu2 := by
+          unfold inBand at hbo; omega
+        have hidx : j + (i + max mu mu2 - j) - max mu mu2 = i := by unfold inBand at hbo; omega
+        simp only [Option.getD_some, if_pos hcond, hidx, ← hn]
+      · rw [if_neg hbo]
+        have hb1 : ¬ inBand ml mu i j := by unfold inBand at hbo ⊢; omega
+        have hb2 : ¬ inBand ml2 mu2 i j := by unfold inBand at hbo ⊢; omega
+        rw [if_neg hb1, if_neg hb2]
+        cases isAdd <;> simp
+
+theorem add_dense {A B : Mat K} (ha : WF A) (hb : WF B) (hn : A.n = B.n) :
+    ∃ C, add A B = some C ∧ WF C ∧ C.n = A.n ∧ ∀ i j, i < A.n → j < A.n → entry C i j = entry A i j + entry B i j := by
+  simpa [add] using addSub_dense true ha hb hn
+theorem sub_dense {A B : Mat K} (ha : WF A) (hb : WF B) (hn : A.n = B.n) :
+    ∃ C, sub A B = some C ∧ WF C ∧ C.n = A.n ∧ ∀ i j, i < A.n → j < A.n → entry C i j = entry A i j - entry B i j := by
+  simpa [sub] using addSub_dense false ha hb hn
+/-- dimension mismatch panics -/
+theorem addSub_mismatch (isAdd : Bool) (A B : Mat K) (h : A.n ≠ B.n) : addSub isAdd A B = none := by
+  unfold addSub; rw [if_pos h]
+
+
+/-! ### scalar operations -/
+
+theorem componentAddSub_dense (isAdd : Bool) {A : Mat K} (ha : WF A) (c : K) :
+    ∃ C, componentAddSub isAdd A c = some C ∧ WF C ∧ C.n = A.n ∧
+      ∀ i j, i < A.n → j < A.n → entry C i j = if isAdd then entry A i j + c else entry A i j - c := by
+  obtain ⟨hm, hs⟩ := ha
+  unfold componentAddSub
+  cases hA : A.storage with
+  | identity =>
+    dsimp only
+    refine ⟨_, rfl, wf_flat_full _ _, rfl, ?_⟩
+    intro i j hi hj
+    rw [entry_flat_full _ hi hj]
+    simp only [entry, hA]
+    by_cases hij : i = j <;> cases isAdd <;> simp [hij] <;> ring
+  | full =>
+    rw [hA] at hs; dsimp only at hs ⊢
+    refine ⟨_, rfl, ⟨hm, by simp [hs]⟩, rfl, ?_⟩
+    intro i j hi hj
+    have hlt : i * A.n + j < A.data.size := by rw [hs]; exact flat_lt hi hj
+    cases isAdd <;> simp [entry, hA, Array.getD, hlt]
+  | banded ml mu =>
+    rw [hA] at hs; dsimp only at hs ⊢
+    by_cases hc : c = 0
+    · have : Num.eqb c (Num.zero : K) = true := by simp [hc]
+      rw [if_pos this]
+      refine ⟨A, rfl, ⟨hm, by rw [hA]; exact hs⟩, rfl, ?_⟩
+      intro i j _ _; cases isAdd <;> simp [hc]
+    · have : ¬ (Num.eqb c (Num.zero : K) = true) := by simp [hc]
+      rw [if_neg this]
+      have hsome : ∀ r cc, r < A.n → cc < A.n →
+          ((fun (i j : Nat) => if inBand ml mu i j then (A.data[(i + mu - j) * A.n + j]?).map (fun v => if isAdd then v + c else v - c)
+              else some (if isAdd then c else Num.zero - c)) r cc).isSome := by
+        intro r cc _ hcc
+        dsimp only
+        by_cases hb : inBand ml mu r cc
+        · rw [if_pos hb]
+          have : (r + mu - cc) * A.n + cc < A.data.size := by rw [hs]; exact flat_lt (band_row_lt hb) hcc
+          simp [this]
+        · rw [if_neg hb]; rfl
+      simp only [collect]
+      rw [collectRows_some _ hsome]
+      refine ⟨_, rfl, wf_flat_full _ _, rfl, ?_⟩
+      intro i j hi hj
+      rw [entry_flat_full _ hi hj]
+      simp only [entry, hA]
+      by_cases hb : inBand ml mu i j
+      · rw [if_pos hb, if_pos hb]
+        have : (i + mu - j) * A.n + j < A.data.size := by rw [hs]; exact flat_lt (band_row_lt hb) hj
+        cases isAdd <;> simp [Array.getD, this]
+      · rw [if_neg hb, if_neg hb]
+        cases isAdd <;> simp
+
+/-- `component_mul`: entrywise product; Banded stays Banded (also for the scalar 0), Identity becomes a diagonal band -/
+theorem componentMul_dense {A : Mat K} (ha : WF A) (c : K) :
+    WF (componentMul A c) ∧ (componentMul A c).n = A.n ∧
+      ∀ i j, i < A.n → j < A.n → entry (componentMul A c) i j = entry A i j * c := by
+  obtain ⟨hm, hs⟩ := ha
+  unfold componentMul
+  cases hA : A.storage with
+  | identity =>
+    dsimp only
+    refine ⟨by simp [WF, diagonal], by simp [diagonal], ?_⟩
+    intro i j hi hj
+    simp only [entry, diagonal, hA, inBand]
+    by_cases hij : i = j
+    · subst hij; simp [Array.getD, hi]
+    · have : ¬ (j ≤ i + 0 ∧ i ≤ j + 0) := by omega
+      rw [if_neg this]; simp [hij]
+  | full =>
+    rw [hA] at hs; dsimp only at hs ⊢
+    refine ⟨⟨hm, by simp [hs]⟩, rfl, ?_⟩
+    intro i j hi hj
+    have hlt : i * A.n + j < A.data.size := by rw [hs]; exact flat_lt hi hj
+    simp [entry, hA, Array.getD, hlt]
+  | banded ml mu =>
+    rw [hA] at hs; dsimp only at hs ⊢
+    refine ⟨⟨rfl, by simp [hs]⟩, rfl, ?_⟩
+    intro i j hi hj
+    simp only [entry, hA]
+    by_cases hb : inBand ml mu i j
+    · rw [if_pos hb, if_pos hb]
+      have : (i + mu - j) * A.n + j < A.data.size := by rw [hs]; exact flat_lt (band_row_lt hb) hj
+      simp [Array.getD, this]
+    · rw [if_neg hb, if_neg hb]; simp
+
+/-! ### `is_identity` agrees with the dense definition (stated through `entry`) -/
+
+/-- Identity storage denotes the identity matrix, and `is_identity` says so -/
+theorem isIdentity_of_identity (A : Mat K) (h : A.storage = .identity) :
+    A.isIdentity = some true ∧ ∀ i j, entry A i j = if i = j then 1 else 0 := by
+  unfold isIdentity entry; rw [h]; exact ⟨rfl, fun _ _ => rfl⟩
+
 end
 end Mat
